@@ -97,6 +97,11 @@ func (run *Output) trimStartLetterSpacing() {
 	if len(run.Glyphs) == 0 {
 		return
 	}
+	if run.Glyphs[0].startLetterSpacing == 0 {
+		return
+	}
+	// the glyphs are shared with the run this one was cut from: work on a copy
+	run.Glyphs = append([]Glyph(nil), run.Glyphs...)
 	firstG := &run.Glyphs[0]
 	halfSpacing := firstG.startLetterSpacing
 	if run.Direction.IsVertical() {
